@@ -193,8 +193,8 @@ func init() {
 	prop("C17", []string{"R17a", "R17b", "R17c", "R17e", "R17f", "R17g"},
 		structural+"Decided: (R17a) in Reserve the hard-limit rejection dominates every eviction and counter store (refusal evicts nothing, stores nothing); (R17b) the compared quantity is currentSize + queuedEvictionsSize + requested size; (R17c) the backlog counter is increased on queueing and decreased by the same field after the file was removed (retry succeeds later); (R17e) the limit is active only when configured > 0 and 507 is produced nowhere else; (R17f) every file creation is dominated by a successful admission; (R17g) hits are returned without admission.",
 		"Not decided: HTTP 507 / RESOURCE_EXHAUSTED mapping in package server (error code translation is checked only as far as R01h), timing of the background remover.")
-	prop("C18", []string{"R18a", "R18b", "R18c", "R18d", "R12d"},
-		structural+"Decided: (R18a) Put rejects size > max_blob_size before reserving; (R18b) every ingress guard in package server is the strict comparison size > limit on the very value handed to Put (exactly-the-limit accepted, nothing stronger); (R18c) one configured value flows unchanged to the disk cache, the HTTP server, the gRPC server and GetCapabilities; (R18d/R12d) every backend lookup and every use of a backend-reported size is dominated by the max_proxy_blob_size comparison.",
+	prop("C18", []string{"R18a", "R18b", "R18c", "R18d", "R12d", "R10b"},
+		structural+"Decided: (R18a) Put rejects size > max_blob_size before reserving; (R18b) every ingress guard in package server is the strict comparison size > limit on the very value handed to Put (exactly-the-limit accepted, nothing stronger); (R18c) one configured value flows unchanged to the disk cache, the HTTP server, the gRPC server and GetCapabilities; (R18d/R12d/R10b) every backend lookup, every queued existence check and every use of a backend-reported size is dominated by the max_proxy_blob_size comparison.",
 		"Not decided: that the logical size of compressed uploads equals the declared one (C01), client error codes.")
 	prop("C19", []string{"R19a", "R19b", "R19c", "R19d", "R19e", "R19f", "R19g"},
 		structural+"Decided: (R19a/b/c/d) every command-line flag is read with the accessor of its own type into the field whose YAML tag is the flag's name, defaults agree, every flag is read and every YAML field has a flag; (R19e) both front ends return a configuration only through the one validator; (R19g) both normalise the listener addresses alike; (R19f) for each class of invalid set-up named by the property the validator has an error exit reached exactly by that defect (class-sliced exploration of validateConfig).",
